@@ -118,6 +118,17 @@ def main():
         seed = int(os.environ.get("VERIF_SEED", "1"))
     except ValueError:
         seed = 1
+    if args.replay:
+        # a replay file records the concrete failing input (for the reader) and the (seed, tier) of the run that found it;
+        # generation is a pure function of (seed, tier), so re-running with them re-executes the failing case on the current tree
+        try:
+            rp = json.load(open(args.replay))
+            seed = int(rp.get("seed", rp.get("searched", {}).get("seed", seed)))
+            tier = rp.get("tier", rp.get("searched", {}).get("tier", tier))
+            print(f"replay: {args.replay} -> seed={seed} tier={tier} kind={rp.get('kind')}")
+        except Exception as e:  # noqa
+            print(f"replay: cannot read {args.replay}: {e}")
+            sys.exit(2)
     t_start = time.time()
     work = os.path.join(ROOT, ".work", pid)
     shutil.rmtree(work, ignore_errors=True)
